@@ -347,13 +347,15 @@ def shared_state(facts):
     ctx = E.Ctx(facts)
     ctx.open_loops = True
     ctx.noinline = list(NOINLINE)
-    ctx.log_calls = r"determine_worker_count$|ParFrameBuf::new$|feed_fixed_block_size"
+    from . import lib_fill as _lf
+    fdn = _lf.feeder_body(facts).id
+    ctx.log_calls = r"determine_worker_count$|ParFrameBuf::new$|" + re.escape(fdn)
     it = E.Interp(ctx, pe)
     try:
         it.run()
         wc = [c for c in ctx.calls if c[0].endswith("determine_worker_count")]
         nb = [c for c in ctx.calls if c[0].endswith("ParFrameBuf::new")]
-        fd = [c for c in ctx.calls if "feed_fixed_block_size" in c[0]]
+        fd = [c for c in ctx.calls if fdn in c[0]]
         wcv = E.canon(E.mk_okval(("call", wc[0][0], wc[0][1], ()))) if wc else None
         ok = bool(wc and nb and fd) and wcv in E.canon(nb[0][1][0]) and E.canon(fd[0][1][2]) == wcv
         t.row(ok, pe.id, "worker-count-uses", "the worker count %s does not size the buffer pool (%s) and the stop tokens (%s)"
